@@ -51,6 +51,14 @@ Theorem C11_literal_bounded : forall bs n r, p_literal_header bs = ROk n r -> li
 Proof. exact literal_allocation_bounded. Qed.
 Print Assumptions C11_literal_bounded.
 
+(* Synchronising literals: whenever the parser accepts a literal header {n}CRLF - and therefore goes on to read n bytes -
+   the continuation request ("+") has been sent, also for n = 0; a client that waits for it is never left waiting.
+   (Holds because ParseLiteral calls the continuation callback independently of the size: fact read from the source.) *)
+Theorem C11_continuation_for_every_literal : forall bs n r,
+  p_literal_header bs = ROk n r -> lit_continuation_sent n = true.
+Proof. exact continuation_for_every_literal. Qed.
+Print Assumptions C11_continuation_for_every_literal.
+
 (* For EVERY byte stream, before or after authentication, with or without TLS configured: the session model neither spins
    nor crashes nor runs out of fuel; it ends with the server closing the connection. *)
 Theorem C11_session_always_ends_closed : forall login_ok tls fuel st bs, (List.length bs < fuel)%nat ->
